@@ -144,14 +144,15 @@ class DechunkedInput(io.RawIOBase):
                 # If (read + chunk size) becomes more than len(buf), buf will
                 # grow beyond the original size and read more data than
                 # required. So only read as much data as can fit in buf.
-                if read + n > len(buf):
-                    buf[read:] = self._rfile.read(len(buf) - read)
-                    self._len -= len(buf) - read
-                    read = len(buf)
-                else:
-                    buf[read : read + n] = self._rfile.read(n)
-                    self._len -= n
-                    read += n
+                n = min(n, len(buf) - read)
+                data = self._rfile.read(n)
+
+                if len(data) != n:
+                    raise OSError("Chunk ended before its declared length")
+
+                buf[read : read + n] = data
+                self._len -= n
+                read += n
 
             if self._len == 0:
                 # Skip the terminating newline of a chunk that has been fully
